@@ -390,3 +390,151 @@ def oracle_no_attacker_influence(evs, meta):
             if e.kind == "api" and e.f[0] == "0" and e.f[1] == "send" and e.f[-1] != "=-1":
                 return "isolated agent accepted application data for sending (%s) although no pair was ever validated" % " ".join(e.f)
     return None
+
+
+# ------------------------------------------------------------------ C13: consent freshness / keepalives
+G_IO_ERROR_PERMISSION_DENIED = 14
+
+
+def gen_consent(rng, i):
+    """C13: converge on a loss-free network with a FIXED one-way delay (so the trace gives delivery times), then
+    (a) blackout of one or both directions for a chosen duration, (b) local revocation on one side at a chosen moment,
+    (c) a long idle session; application sends probe the send gate throughout."""
+    kind = rng.choice(["blackout", "blackout", "revoke", "idle"])
+    opts = [rng.choice([0, OPT_REGULAR]) | (OPT_CONSENT if rng.random() < 0.75 else 0) for _ in (0, 1)]
+    if kind == "revoke":
+        opts = [o | OPT_CONSENT for o in opts]
+    ncomp = rng.choice([1, 1, 2])
+    delay = rng.choice([1, 5, 20, 50])
+    ops = two_agents(rng, 0, tuple(opts), rng.choice([(1, 0), (0, 1)]), (("10.0.0.1",), ("10.0.1.1",)), ncomp)
+    ops.append("net,0,0,%d,%d,3" % (delay, delay))
+    ops += ["gather,0,1", "gather,1,1", "run,10"]
+    meta = {"kind": "consent-" + kind, "ncomp": ncomp, "delay": delay, "opts": opts}
+    if kind == "revoke":
+        when = rng.choice(["early", "mid", "ready"])
+        who = rng.randrange(2); comp = rng.randrange(1, ncomp + 1)
+        meta.update(who=who, comp=comp, when=when)
+        sig = signalling(rng, ncomp)
+        if when == "early":
+            ops += ["consent_lost,%d,1,%d" % (who, comp)] + sig
+        elif when == "mid":
+            ops += sig + ["run,%d" % rng.choice([30, 90, 300]), "consent_lost,%d,1,%d" % (who, comp)]
+        else:
+            ops += sig + ["run,%d" % rng.choice([4000, 9000, 21000]), "consent_lost,%d,1,%d" % (who, comp)]
+        for _ in range(rng.choice([6, 20])):
+            ops += ["run,%d" % rng.choice([500, 1500, 3000])] + ["send,%d,1,%d,100,%d" % (a, c, rng.randrange(200)) for a in (0, 1) for c in range(1, ncomp + 1)]
+    else:
+        ops += signalling(rng, ncomp) + ["run,6000"]
+        pre = rng.choice([0, 3000, 11000])
+        ops += ["run,%d" % pre] if pre else []
+        if kind == "blackout":
+            dirs = rng.choice([("01",), ("10",), ("01", "10")])
+            dur = rng.choice([8000, 20000, 23000, 38000, 45000, 70000, 10 ** 9])
+            for d in dirs:
+                ops.append("hole,10.0.%s.1,10.0.%s.1,on" % (d[0], d[1]))
+            t = 0
+            total = rng.choice([60000, 90000])
+            off = False
+            while t < total:
+                step = rng.choice([1000, 2000, 3500])
+                ops.append("run,%d" % step); t += step
+                if not off and t >= dur:
+                    for d in dirs:
+                        ops.append("hole,10.0.%s.1,10.0.%s.1,off" % (d[0], d[1]))
+                    off = True
+                ops += ["send,%d,1,%d,64,%d" % (a, rng.randrange(1, ncomp + 1), rng.randrange(200)) for a in (0, 1)]
+            meta.update(dirs=dirs, dur=dur)
+        else:
+            for _ in range(rng.choice([4, 12])):
+                ops += ["run,%d" % rng.choice([20000, 45000, 70000])] + ["send,%d,1,1,10,%d" % (a, rng.randrange(200)) for a in (0, 1)]
+    ops += ["run,1000"] + final_queries(ncomp)
+    return "cons%d %s" % (i, " ".join(ops)), meta
+
+
+def oracle_consent(evs, meta):
+    delay = meta["delay"]; opts = meta["opts"]; ncomp = meta["ncomp"]
+    SLACK = 60     # ms: Ta pacing of keepalives across components + dispatch
+    for x in (0, 1):
+        fresh = bool(opts[x] & OPT_CONSENT)
+        for c in range(1, ncomp + 1):
+            cs = str(c)
+            ready_t = None; failed_t = None; sel = None
+            for e in evs:
+                if e.kind == "sig" and e.f[0] == str(x) and e.f[1] == "selected-pair" and e.f[3] == cs:
+                    sel = (e.f[4], e.f[5])
+                if e.kind == "sig" and e.f[0] == str(x) and e.f[1] == "state" and e.f[3] == cs:
+                    if e.f[4] == "READY" and ready_t is None:
+                        ready_t = e.t
+                    if e.f[4] == "FAILED" and ready_t is not None and failed_t is None:
+                        failed_t = e.t
+            if ready_t is None or sel is None:
+                if meta["kind"] != "consent-revoke":
+                    return "agent %d component %d never became READY on a loss-free network" % (x, c)
+                continue
+            end_t = max(e.t for e in evs)
+            # ---- keepalive silence bound on the selected pair
+            period = 6000 if (fresh or opts[x] & 0) else 25000
+            last = ready_t
+            for e in evs:
+                if e.kind == "pkt" and e.t >= ready_t and e.f[0] == sel[0] and e.f[1] == sel[1] and (failed_t is None or e.t <= failed_t):
+                    if e.t - last > period + SLACK:
+                        return "agent %d left its selected pair %s>%s silent for %d ms (keepalive period %d ms) before t=%d" % (x, sel[0], sel[1], e.t - last, period, e.t)
+                    last = e.t
+            lim = failed_t if failed_t is not None else end_t
+            if lim - last > period + SLACK:
+                return "agent %d left its selected pair %s>%s silent for %d ms (keepalive period %d ms) until t=%d" % (x, sel[0], sel[1], lim - last, period, lim)
+            if not fresh:
+                continue
+            # ---- consent expiry: answers delivered to x on the selected pair
+            ans = [e.t + delay for e in evs if e.kind == "pkt" and e.f[0] == sel[1] and e.f[1] == sel[0] and e.f[2] in ("ok", "dup")
+                   and "stun" in e.f and ("c2" in e.f) and e.t + delay >= ready_t - 2000]
+            got403 = [e.t + delay for e in evs if e.kind == "pkt" and e.f[0] == sel[1] and e.f[1] == sel[0] and e.f[2] in ("ok", "dup") and "err=403" in e.f]
+            first_ka = next((e.t for e in evs if e.kind == "pkt" and e.t >= ready_t - 2000 and e.f[0] == sel[0] and e.f[1] == sel[1] and "c0" in e.f), None)
+            if got403:
+                t403 = min(got403)
+                if failed_t is None or failed_t > t403 + 5:
+                    return "agent %d got an authenticated 403 on its selected pair at t=%d but announced FAILED at %s" % (x, t403, failed_t)
+            elif failed_t is not None:
+                prior = [a for a in ans if a <= failed_t]
+                L = max(prior) if prior else first_ka
+                if L is None or not (L + 30000 < failed_t + 1 and failed_t <= L + 30000 + 6000 + SLACK):
+                    return "agent %d announced FAILED at t=%d but the last answer on its selected pair arrived at t=%s (consent timeout 30000 ms)" % (x, failed_t, L)
+            else:
+                pts = sorted(a for a in ans) + [end_t]
+                prev = pts[0] if pts else ready_t
+                for a in pts[1:]:
+                    if a - prev > 30000 + 6000 + SLACK:
+                        return "agent %d had no answer on its selected pair between t=%d and t=%d (> consent timeout + one interval) and never announced FAILED" % (x, prev, a)
+                    prev = a
+            # ---- the send gate
+            for e in evs:
+                if e.kind == "api" and e.f[0] == str(x) and e.f[1] == "send" and e.f[3] == cs and e.t > ready_t:
+                    ok = e.f[-1] != "=-1"
+                    if failed_t is not None and e.t > failed_t and (ok or "err=%d" % G_IO_ERROR_PERMISSION_DENIED not in e.f):
+                        return "agent %d: send at t=%d after consent was lost (FAILED at t=%d) returned %s %s instead of a permission error" % (x, e.t, failed_t, e.f[-1], e.f[-2])
+                    if (failed_t is None or e.t < failed_t) and not ok:
+                        return "agent %d: send at t=%d failed (%s %s) while consent was alive" % (x, e.t, e.f[-1], e.f[-2])
+    # ---- local revocation: every later check is answered 403
+    if meta["kind"] == "consent-revoke":
+        who = meta["who"]; comp = meta["comp"]
+        t_rev = next((e.t for e in evs if e.kind == "api" and e.f[0] == str(who) and e.f[1] == "consent_lost" and e.f[-1] == "=1"), None)
+        if t_rev is None:
+            return "nice_agent_consent_lost returned FALSE on an agent with consent freshness"
+        mine = set()
+        for e in evs:
+            if e.kind == "sig" and e.f[0] == str(who) and e.f[1] == "new-candidate" and e.f[3] == str(comp):
+                mine.add(e.f[4].split("/")[3])
+        reqs = {}
+        for e in evs:
+            if e.kind == "pkt" and "stun" in e.f and "c0" in e.f and e.f[1] in mine and e.f[2] in ("ok", "dup") and e.t + delay > t_rev + 1:
+                reqs[[w for w in e.f if w.startswith("tid=")][0]] = e.t
+        answered = {}
+        for e in evs:
+            if e.kind == "pkt" and "stun" in e.f and e.f[0] in mine and ("c2" in e.f or "c3" in e.f):
+                tid = [w for w in e.f if w.startswith("tid=")][0]
+                if tid in reqs and e.t >= reqs[tid]:
+                    answered.setdefault(tid, []).append("err=403" in e.f)
+        for tid, t in reqs.items():
+            if tid in answered and not all(answered[tid]):
+                return "agent %d answered the check %s (sent t=%d) without 403 after revoking its consent at t=%d" % (who, tid, t, t_rev)
+    return None
